@@ -624,25 +624,36 @@ Linear_Expression_Impl<Row>
           continue;
         }
         if (i.index() > j.index()) {
-          i = row.insert(i, j.index(), *j);
-          (*i) *= c2;
-          ++i;
+          // NOTE: a dense y also iterates on its zero coefficients:
+          // they must not be stored in (a sparse) *this.
+          if (*j != 0) {
+            i = row.insert(i, j.index(), *j);
+            (*i) *= c2;
+            ++i;
+          }
           ++j;
           continue;
         }
         PPL_ASSERT(i.index() == j.index());
-        (*i) = (*j);
-        (*i) *= c2;
-        ++i;
+        if (*j == 0) {
+          i = row.reset(i);
+        }
+        else {
+          (*i) = (*j);
+          (*i) *= c2;
+          ++i;
+        }
         ++j;
       }
       while (i != i_end && i.index() < end) {
         i = row.reset(i);
       }
       while (j != j_last) {
-        i = row.insert(i, j.index(), *j);
-        (*i) *= c2;
-        // No need to increment i here.
+        if (*j != 0) {
+          i = row.insert(i, j.index(), *j);
+          (*i) *= c2;
+          // No need to increment i here.
+        }
         ++j;
       }
     }
